@@ -296,7 +296,7 @@ def pool_tie(ctx, work):
     if not ctx.driver.ok:
         ctx.note('driver unavailable: pool tie skipped'); return
     rng = ctx.rng
-    scripts = list(FIXED) + list(ORA_FIXED) + ORA_MINIMAL + [random_script(rng, 14) for _ in range(ctx.scale(8, 300))]
+    scripts = list(FIXED) + list(ORA_FIXED) + ORA_MINIMAL + [random_script(rng, 14) for _ in range(ctx.scale(8, 160))]
     reqs = []
     for s_ in scripts:
         reqs += [{'op': 'run', 'kind': k, 'events': s_} for k in KINDS[:3]] + [{'op': 'ora', 'events': ora_events(s_)}]
